@@ -68,6 +68,201 @@ def effective_groups(proxy):
 
 
 # ---------------------------------------------------------------------------
+# construction routes (review 3, M5): the SAME configuration built through every documented way
+# ---------------------------------------------------------------------------
+# A configuration is given as `spec` = {group name: [[pattern, anchors], ...]} (order kept) and a list of core
+# patterns.  The request sent to the model is always encoded from the spec (object route, enc_config); the
+# implementation receives the configuration built along `route` = [kind, seed]:
+#   objects                 ProxyGroup(name, [ProxyGraph(p, anchor=a), ...]), Proxy([ProxyGraph(core)], {name: group}, enable_aam=, parser=)
+#   object_forms            ProxyGraph positional / keyword / default anchor / name= / extra properties; ProxyGroup graphs as
+#                           str | [str] | ProxyGraph | [ProxyGraph] | mixed list, positional and keyword arguments
+#   group_from_dict         ProxyGroup.from_dict({name: <cfg>}): bare string, list of strings, {"graphs": str | [str] | {..} | [{..}, str]}
+#   group_from_dict_single  ProxyGroup.from_dict_single(name, {"graphs": ...}) per group
+#   proxy_from_dict         Proxy.from_dict({"core": str | [str], "groups": {...}})     (defaults: enable_aam=True, multigraph parser)
+#   sampler_forms           explicit non-restricting samplers: GraphSampler(), GraphSampler(unique=False), a plain function, a function
+#                           with the optional group_name keyword (must receive the group's name), a function that answers a
+#                           one-graph group with the bare ProxyGraph, a GraphSampler subclass; unique=False spelled out
+# every route except `objects` also draws HOW the proxy receives its parts: core as str | [str] | [ProxyGraph] | ProxyGroup(unique=True) |
+# ProxyGroup(sampler=GraphSampler(unique=True)); groups as dict | list | single ProxyGroup; Proxy(...) positional / keyword /
+# defaults omitted / MolProxy when enable_aam is False; build_graphs / replace_next_node positional or by keyword.
+ROUTES = ("objects", "object_forms", "group_from_dict", "group_from_dict_single", "proxy_from_dict", "sampler_forms")
+
+
+def spec_of(groups):
+    return {n: [[pg.pattern, [int(a) for a in pg.anchor]] for pg in g.graphs] for n, g in groups.items()}
+
+
+def _graph_obj(p, a, rnd):
+    from fgutils.proxy import ProxyGraph
+    a = list(a)
+    f = rnd.randrange(5)
+    if f == 0 and a == [0]:
+        return ProxyGraph(p)                       # documented default anchor [0]
+    if f == 1:
+        return ProxyGraph(pattern=p, anchor=a)
+    if f == 2:
+        return ProxyGraph(p, a, None)
+    if f == 3:
+        return ProxyGraph(p, anchor=a, name="n%d" % rnd.randrange(9), weight=rnd.randrange(5))   # name + graph property
+    return ProxyGraph(p, a)
+
+
+def _sampler_form(name, rnd):
+    """a non-restricting sampler in one of the documented forms -> kwargs of ProxyGroup"""
+    from fgutils.proxy import GraphSampler
+    f = rnd.randrange(8)
+    if f == 0:
+        return {"sampler": GraphSampler()}
+    if f == 1:
+        return {"sampler": GraphSampler(unique=False)}
+    if f == 2:
+        return {"sampler": lambda graphs: graphs}
+    if f == 3:
+        def with_name(graphs, group_name=None):
+            if group_name != name:
+                raise AssertionError("sampler of group %r called with group_name=%r" % (name, group_name))
+            return graphs
+        return {"sampler": with_name}
+    if f == 4:
+        # a one-graph answer may be the bare ProxyGraph (sample_graphs wraps it); otherwise a fresh list
+        return {"sampler": lambda graphs: graphs[0] if len(graphs) == 1 else list(graphs)}
+    if f == 5:
+        class Sub(GraphSampler):
+            def sample(self, graphs, group_name=None):
+                return super().sample(graphs, group_name)
+        return {"sampler": Sub()}
+    if f == 6:
+        return {"unique": False}
+    return {"sampler": None, "unique": False}
+
+
+def _group_obj(name, gs, rnd, samplers=False):
+    from fgutils.proxy import ProxyGroup
+    all0 = all(list(a) == [0] for _, a in gs)
+    f = rnd.randrange(6)
+    if f == 0 and all0 and len(gs) == 1:
+        graphs = gs[0][0]
+    elif f == 1 and all0:
+        graphs = [p for p, _ in gs]
+    elif f == 2 and len(gs) == 1:
+        graphs = _graph_obj(gs[0][0], gs[0][1], rnd)
+    elif f == 3:
+        graphs = [p if list(a) == [0] and rnd.random() < 0.5 else _graph_obj(p, a, rnd) for p, a in gs]
+    else:
+        graphs = [_graph_obj(p, a, rnd) for p, a in gs]
+    kw = _sampler_form(name, rnd) if samplers else {}
+    if rnd.random() < 0.5:
+        return ProxyGroup(name=name, graphs=graphs, **kw)
+    return ProxyGroup(name, graphs, **kw)
+
+
+def _group_cfg(gs, rnd, top_level):
+    """one of the documented JSON forms of a group (ProxyGroup.from_dict / from_dict_single docstrings)"""
+    all0 = all(list(a) == [0] for _, a in gs)
+
+    def gdict(p, a):
+        d = {"pattern": p}
+        if list(a) != [0] or rnd.random() < 0.5:
+            d["anchor"] = list(a)
+        if rnd.random() < 0.2:
+            d["weight"] = rnd.randrange(5)         # <any_key>: <any_value>
+        return d
+    forms = ["complete", "mixed"]
+    if len(gs) == 1:
+        forms.append("graphs_dict")
+        if all0:
+            forms += ["graphs_str"] + (["bare_str"] if top_level else [])
+    if all0:
+        forms += ["graphs_list_str"] + (["bare_list"] if top_level else [])
+    f = rnd.choice(forms)
+    if f == "bare_str":
+        return gs[0][0]
+    if f == "bare_list":
+        return [p for p, _ in gs]
+    if f == "graphs_str":
+        return {"graphs": gs[0][0]}
+    if f == "graphs_list_str":
+        return {"graphs": [p for p, _ in gs]}
+    if f == "graphs_dict":
+        return {"graphs": gdict(*gs[0])}
+    if f == "mixed":
+        return {"graphs": [p if list(a) == [0] and rnd.random() < 0.5 else gdict(p, a) for p, a in gs]}
+    return {"graphs": [gdict(p, a) for p, a in gs]}
+
+
+def construct(spec, cores, route, aam=True, multi=True, cls=None):
+    """-> (make_proxy, groups_dict, call_kw): the configuration built along `route`; make_proxy() gives a NEW proxy each
+    time (same group objects, same core ProxyGraph objects where the form has any; a new core group / sampler each time);
+    groups_dict = dict[str, ProxyGroup] for build_graphs / replace_next_node; call_kw: call those by keyword?"""
+    import random
+    from fgutils.parse import Parser
+    from fgutils.proxy import Proxy, MolProxy, ProxyGroup, ProxyGraph, GraphSampler
+    kind, seed = route
+    rnd = random.Random(seed)
+    cls = cls or Proxy
+    if kind == "objects":
+        groups = {n: ProxyGroup(n, [ProxyGraph(p, anchor=list(a)) for p, a in gs]) for n, gs in spec.items()}
+        core_pgs = [ProxyGraph(c) for c in cores]
+        return (lambda: cls(list(core_pgs), groups, enable_aam=aam, parser=Parser(use_multigraph=multi))), groups, False
+    if kind == "proxy_from_dict" and not (aam and multi and cls is Proxy):
+        kind = "group_from_dict"                   # Proxy.from_dict documents core and groups only
+    if kind == "proxy_from_dict":
+        def make():
+            r2 = random.Random(seed)
+            cfg = {"core": cores[0] if len(cores) == 1 and r2.random() < 0.7 else list(cores),
+                   "groups": {n: _group_cfg(gs, r2, True) for n, gs in spec.items()}}
+            return Proxy.from_dict(cfg)
+        groups = ProxyGroup.from_dict({n: _group_cfg(gs, rnd, True) for n, gs in spec.items()})
+        return make, groups, rnd.random() < 0.5
+    if kind == "group_from_dict":
+        groups = ProxyGroup.from_dict({n: _group_cfg(gs, rnd, True) for n, gs in spec.items()})
+    elif kind == "group_from_dict_single":
+        groups = {n: ProxyGroup.from_dict_single(n, _group_cfg(gs, rnd, False)) for n, gs in spec.items()}
+    elif kind == "object_forms":
+        groups = {n: _group_obj(n, gs, rnd) for n, gs in spec.items()}
+    elif kind == "sampler_forms":
+        groups = {n: _group_obj(n, gs, rnd, samplers=True) for n, gs in spec.items()}
+    else:
+        raise ValueError("unknown route %r" % (kind,))
+    core_pgs = [ProxyGraph(c) for c in cores]
+    cf = rnd.randrange(5)
+    gf = rnd.randrange(3)
+    pf = rnd.randrange(4)
+
+    def make():
+        if cf == 0 and len(cores) == 1:
+            core = cores[0]
+        elif cf == 1:
+            core = list(cores)
+        elif cf == 2:
+            core = ProxyGroup("__core__", list(core_pgs), unique=True)
+        elif cf == 3:
+            core = ProxyGroup("core", list(cores), sampler=GraphSampler(unique=True))
+        else:
+            core = list(core_pgs)
+        if gf == 0 and len(groups) == 1:
+            garg = next(iter(groups.values()))
+        elif gf == 1:
+            garg = list(groups.values())
+        else:
+            garg = groups
+        parser = Parser(use_multigraph=multi)
+        if cls is Proxy and not aam and pf == 0:
+            return MolProxy(core, garg, parser)
+        if pf == 1:
+            return cls(core, garg, aam, parser)
+        if pf == 2:
+            kw = {}
+            if not aam:
+                kw["enable_aam"] = False               # documented default: True
+            if not multi:
+                kw["parser"] = parser                  # documented default: Parser(use_multigraph=True)
+            return cls(core, garg, **kw)
+        return cls(core=core, groups=garg, enable_aam=aam, parser=parser)
+    return make, groups, rnd.random() < 0.5
+
+
+# ---------------------------------------------------------------------------
 # random configurations
 # ---------------------------------------------------------------------------
 def num_exp(groups, pattern, memo=None):
@@ -123,11 +318,25 @@ def gen_config(rng, allow_errors=True):
                 if ml > 0:
                     flags.add("multi_label_node")
             hn = Parser(use_multigraph=True).parse(pat).number_of_nodes()
-            na = rng.choice([1, 1, 2, 3])
+            na = rng.choice([1, 1, 1, 2, 2, 3, 3, 4, 5])
             anchors = [rng.randrange(hn) for _ in range(na)] if hn else [0]
             if na > 1:
                 flags.add("multi_anchor")
+            if na > 2:
+                flags.add("anchors>2")
             graphs.append(ProxyGraph(pat, anchor=anchors))
+        if rng.random() < 0.3:
+            # a second graph with the SAME pattern: another anchor list (a different way to attach it), or an exact duplicate
+            # (listed twice = chosen twice: two samples)
+            src = rng.choice(graphs)
+            hn = Parser(use_multigraph=True).parse(src.pattern).number_of_nodes()
+            if hn >= 2 and rng.random() < 0.7:
+                sh = rng.randrange(1, hn)
+                graphs.append(ProxyGraph(src.pattern, anchor=[(a + sh) % hn for a in src.anchor]))
+                flags.add("same_pattern_other_anchor")
+            else:
+                graphs.append(ProxyGraph(src.pattern, anchor=list(src.anchor)))
+                flags.add("duplicate_graph")
         if len(graphs) > 1:
             flags.add("multi_graph_group")
         groups[names[i]] = ProxyGroup(names[i], graphs)
@@ -147,13 +356,18 @@ def gen_config(rng, allow_errors=True):
     return groups, core, flags
 
 
-def impl_build(core, groups, multi):
+def impl_build(core, groups, multi, route=None, spec=None):
     from fgutils.parse import Parser
     from fgutils.proxy import build_graphs, ProxyGraph
+    kw = False
+    if route is not None:
+        _, groups, kw = construct(spec, [core], route, True, multi)
+    if kw:
+        return sorted_canon(build_graphs(core=ProxyGraph(pattern=core), groups=groups, parser=Parser(use_multigraph=multi)))
     return sorted_canon(build_graphs(ProxyGraph(core), groups, Parser(use_multigraph=multi)))
 
 
-def impl_generate(cores, groups, aam, multi, history=False, protocol=None):
+def impl_generate(cores, groups, aam, multi, history=False, protocol=None, route=None, spec=None):
     """the enumeration of iter(Proxy).  With `history`, a first proxy built from the SAME core
     ProxyGraph objects and group objects is exhausted before (a proxy's enumeration must not depend
     on proxies used earlier in the process); the enumeration of the second one is returned.
@@ -164,11 +378,19 @@ def impl_generate(cores, groups, aam, multi, history=False, protocol=None):
     ["get_next", k] = k samples with proxy.get_next(), the rest with a for-loop.  The concatenation is returned."""
     from fgutils.parse import Parser
     from fgutils.proxy import Proxy, ProxyGraph
-    core_pgs = [ProxyGraph(c) for c in cores]
+    if route is not None:
+        # the configuration built along a construction route (see `construct`); with `history` the first proxy is
+        # built the same way from the same group objects
+        make, _, _ = construct(spec, cores, route, aam, multi)
+    else:
+        core_pgs = [ProxyGraph(c) for c in cores]
+
+        def make():
+            return Proxy(list(core_pgs), groups, enable_aam=aam, parser=Parser(use_multigraph=multi))
     if history:
-        first = list(Proxy(list(core_pgs), groups, enable_aam=aam, parser=Parser(use_multigraph=multi)))
+        first = list(make())
         del first
-    p = Proxy(list(core_pgs), groups, enable_aam=aam, parser=Parser(use_multigraph=multi))
+    p = make()
     if protocol is None:
         return sorted_canon(list(p))
     kind, k = protocol
@@ -193,10 +415,16 @@ def impl_generate(cores, groups, aam, multi, history=False, protocol=None):
     return sorted_canon(out)
 
 
-def impl_next(g, groups, multi):
+def impl_next(g, groups, multi, route=None, spec=None):
     from fgutils.parse import Parser
     from fgutils.proxy import replace_next_node
-    r = replace_next_node(g, groups, Parser(use_multigraph=multi))
+    kw = False
+    if route is not None:
+        _, groups, kw = construct(spec, ["C"], route, True, multi)
+    if kw:
+        r = replace_next_node(graph=g, groups=groups, parser=Parser(use_multigraph=multi))
+    else:
+        r = replace_next_node(g, groups, Parser(use_multigraph=multi))
     return None if r is None else [enc_graph(x) for x in r]
 
 
@@ -311,13 +539,23 @@ def run(tier, seed):
         # (symbols, bond labels) signatures; only the multiset of GRAPHS tells (clause enumeration_exact)
         ({"g": ["O", "CN", "NC"]}, "S{g}"),
         ({"g": ["O", "CN", "NC"], "h": ["{g}C", "P"]}, "{h}S{g}"),
+        # review 3 (M5): graphs of one group that differ ONLY in the anchor, the same graph listed twice, one-graph groups -
+        # through every construction route (a from_dict that merges entries with the same pattern yields 1 sample for 2)
+        ({"g": [["CO", [0]], ["CO", [1]]]}, "C{g}"),
+        ({"g": [["CO", [0]], ["CO", [0]]]}, "C{g}"),
+        ({"g": [["CO", [1]]]}, "C{g}"),
+        ({"g": [["CO", [0]], ["CO", [1]], ["CO", [0]], "N"], "h": [["S{g}C", [2, 0]], ["S{g}C", [0, 2]]]}, "N{h}1CC1{g}"),
+        ({"g": [["CNO", [0, 1, 2, 1, 0]], ["CNO", [2, 1, 0, 1, 2]]]}, "C1C{g}(C)(C)1"),       # anchor lists of length 5
     ]
+    # every corpus configuration through every construction route, then the generated ones
+    plan = [(ci, rt) for ci in range(len(corpus)) for rt in range(len(ROUTES))]
     n_cfg = 140 if tier == "quick" else 1500
-    for k in range(n_cfg + len(corpus)):
+    for k in range(n_cfg + len(plan)):
         multi = True
-        if k < len(corpus):
-            spec, core = corpus[k]
-            groups = {n: ProxyGroup(n, [ProxyGraph(p, anchor=[0]) for p in ps]) for n, ps in spec.items()}
+        if k < len(plan):
+            spec, core = corpus[plan[k][0]]
+            groups = {n: ProxyGroup(n, [ProxyGraph(p, anchor=[0]) if isinstance(p, str) else ProxyGraph(p[0], anchor=list(p[1])) for p in ps])
+                      for n, ps in spec.items()}
             flags = {"corpus"}
         else:
             for _ in range(20):
@@ -325,12 +563,16 @@ def run(tier, seed):
                 if num_exp(groups, core) <= (400 if tier == "quick" else 1500):
                     break
             multi = rng.random() < 0.8
-        if rng.random() < 0.02 and k >= len(corpus):
+        # construction routes: a fixed share (1/6 each) of the configurations per operation
+        routes = [[ROUTES[(plan[k][1] if k < len(plan) else k + off) % len(ROUTES)], rng.randrange(1 << 30)] for off in (0, 2, 4)]
+        if rng.random() < 0.02 and k >= len(plan):
             # dictionary key that does not match the group name: ValueError when the group is used
             n0 = next(iter(groups))
             groups = dict(groups)
             groups[n0] = ProxyGroup(n0 + "_x", groups[n0].graphs)
             flags.add("key_name_mismatch")
+            routes = [None, None, None]
+        r_gen, r_build, r_next = [None if rt is None or rt[0] == "objects" else rt for rt in routes]
         cfg = enc_config(groups, multi, contract)
         try:
             core_g = Parser(use_multigraph=multi).parse(core)
@@ -339,9 +581,9 @@ def run(tier, seed):
         in_dom = not any(gg.has_edge(n, n) for gg in [core_g] + [Parser(use_multigraph=multi).parse(pg.pattern)
                                                                   for g_ in groups.values() for pg in g_.graphs]
                          for n, d in gg.nodes(data=True) if d["is_labeled"])
-        meta = {"groups": {n: [[pg.pattern, list(pg.anchor)] for pg in g.graphs] for n, g in groups.items()},
-                "core": core, "multi": multi}
-        out = call_impl(impl_build, core, groups, multi)
+        spec_w = spec_of(groups)
+        meta = {"groups": spec_w, "core": core, "multi": multi}
+        out = call_impl(impl_build, core, groups, multi, r_build, spec_w)
         nres = None if isinstance(out, ImplError) else len(out)
         if nres:
             # side condition of conservation at the iter(Proxy) level: no parallel bonds left to collapse
@@ -350,7 +592,8 @@ def run(tier, seed):
             r.count("build_results_with_parallel_bonds(collapse_loses_bonds)", par)
         tags = ["build", "multi" if multi else "simple", "groups=%d" % len(groups)] + sorted("cfg:" + f for f in flags)
         tags.append("raises" if nres is None else ("results>3" if nres > 3 else "results<=3"))
-        cases.append(Case([Atom("C14"), Atom("build"), cfg, enc_graph(core_g)], out, meta=meta, tags=tags, in_domain=in_dom,
+        tags.append("route=%s" % (r_build[0] if r_build else "objects"))
+        cases.append(Case([Atom("C14"), Atom("build"), cfg, enc_graph(core_g)], out, meta=dict(meta, route=r_build), tags=tags, in_domain=in_dom,
                           nontrivial_key=("build", sx(cfg), core) if (nres or 0) > 1 or nres is None else None))
         # iter(Proxy) with one or two cores
         cores = [core]
@@ -367,18 +610,24 @@ def run(tier, seed):
         protocol = None
         if rng.random() < 0.5:
             protocol = [rng.choice(["next", "next_list", "loops", "get_next"]), rng.randint(1, 4)]
-        out = call_impl(impl_generate, cores, groups, aam, multi, history, protocol)
+        if r_gen and r_gen[0] == "proxy_from_dict" and not multi:
+            r_gen = ["group_from_dict", r_gen[1]]
+        if r_gen and r_gen[0] == "proxy_from_dict":
+            aam = True          # Proxy.from_dict documents "core" and "groups" only: the defaults (enable_aam=True, multigraph parser)
+        out = call_impl(impl_generate, cores, groups, aam, multi, history, protocol, r_gen, spec_w)
         cases.append(Case([Atom("C14"), Atom("generate"), cfg, core_gs, aam], out,
-                          meta=dict(meta, cores=cores, aam=aam, history=history, protocol=protocol), in_domain=in_dom,
+                          meta=dict(meta, cores=cores, aam=aam, history=history, protocol=protocol, route=r_gen), in_domain=in_dom,
                           tags=("generate", "aam" if aam else "no_aam", "cores=%d" % len(cores), "after_earlier_proxy" if history else "fresh_process_state",
-                                "protocol=%s" % (protocol[0] if protocol else "list(proxy)")),
+                                "protocol=%s" % (protocol[0] if protocol else "list(proxy)"), "route=%s" % (r_gen[0] if r_gen else "objects"))
+                          + tuple("cfg:" + f for f in sorted(flags) if f in ("same_pattern_other_anchor", "duplicate_graph", "anchors>2")),
                           nontrivial_key=("gen", sx(cfg), tuple(cores), aam)))
         if len(cases) >= 150:
             flush()
         # single step, exact adjacency (also validates that graph.copy() is unobservable)
         if k % 3 == 0:
-            out = call_impl(impl_next, core_g, groups, multi)
-            cases.append(Case([Atom("C14"), Atom("next"), cfg, enc_graph(core_g)], out, meta=meta, tags=("next",), in_domain=in_dom,
+            out = call_impl(impl_next, core_g, groups, multi, r_next, spec_w)
+            cases.append(Case([Atom("C14"), Atom("next"), cfg, enc_graph(core_g)], out, meta=dict(meta, route=r_next),
+                              tags=("next", "route=%s" % (r_next[0] if r_next else "objects")), in_domain=in_dom,
                               nontrivial_key=("next", sx(cfg), core)))
     # complete enumeration of a shipped collection that is small: C{any} over common_groups
     groups, _ = shipped("common")
@@ -409,7 +658,17 @@ def run(tier, seed):
     r.extra_cov["notes"] = r.notes
     r.assumptions = [
         "replace_node as modelled in Model/C13.lean (validated exactly by the C13 check); patterns enter as data parsed by the real parser",
-        "group samplers are the default non-restricting GraphSampler(unique=False); the core group uses unique=True",
+        "group samplers are non-restricting: the default GraphSampler(unique=False) or, on the route sampler_forms, an explicit "
+        "equivalent (GraphSampler(), a function, a function with the group_name keyword, a GraphSampler subclass, a function that answers "
+        "a one-graph group with the bare ProxyGraph); the core group uses unique=True",
+        "CONSTRUCTION ROUTES (review 3, M5): the request to the model is always encoded from the configuration as data (group name -> "
+        "[(pattern, anchors)], cores); the implementation receives it built along one of %d routes, a fixed 1/%d share of the generated "
+        "configurations per operation and every corpus configuration along every route (tags route=*): %s - ProxyGraph / ProxyGroup / "
+        "Proxy / MolProxy objects in every documented argument form (positional, keyword, defaults omitted, graphs as str | [str] | "
+        "ProxyGraph | [ProxyGraph] | mixed, groups as dict | list | single group, core as str | [str] | [ProxyGraph] | unique ProxyGroup), "
+        "ProxyGroup.from_dict and from_dict_single in every documented JSON form (bare string, list of strings, graphs: str | [str] | "
+        "{pattern, anchor} | [{pattern, anchor, <any key>}, str]), Proxy.from_dict({core, groups}); generated groups carry graphs that "
+        "differ only in the anchor list, graphs listed twice, anchor lists of length 1-5.  Every route must give the model's enumeration" % (len(ROUTES), len(ROUTES), ", ".join(ROUTES)),
         "the enumeration is a property of the proxy object, not of how its iterator protocol is driven: half of the iter(Proxy) cases "
         "draw the first 1-4 samples with next(proxy) / proxy.get_next() / a for-loop left with break and the rest with a (second) "
         "for-loop or list() over the same object; the concatenation must be the full enumeration (tags protocol=*)",
@@ -439,7 +698,9 @@ def run(tier, seed):
     ]
     return r.finish(
         level="proof",
-        rule="random group DAGs (2-8 groups, nesting <= 4, 1-4 graphs per group, 1-3 anchors, empty patterns, unknown labels, "
+        rule="random group DAGs (2-8 groups, nesting <= 4, 1-5 graphs per group incl. same-pattern-other-anchor twins and duplicates, 1-5 anchors, "
+             "every configuration built along one of the construction routes objects / object_forms / group_from_dict / group_from_dict_single / "
+             "proxy_from_dict / sampler_forms (fixed shares), empty patterns, unknown labels, "
              "multi-label nodes and key/name mismatches that must raise; simple and multigraph parser) with random cores (1-3 label nodes), "
              "bounded to <= 400 (quick) / 1500 (thorough) results; observable = the whole enumeration as a sorted list of canonical graphs "
              "for build_graphs and iter(Proxy), exact graphs for replace_next_node; the generated tables of the shipped collections; "
@@ -494,17 +755,21 @@ def replay(path):
     op = parse_sx(d["request_line"])[1]
     groups = groups_from_meta(meta)
     multi = meta["multi"]
+    route = meta.get("route")
+    if route:
+        print("re-built along the recorded construction route: %s" % (route,))
     cfg = enc_config(groups, multi)
     core_g = enc_graph(Parser(use_multigraph=multi).parse(meta["core"]))
     if op == "build":
-        case = Case([Atom("C14"), Atom("build"), cfg, core_g], call_impl(impl_build, meta["core"], groups, multi), meta=meta)
+        case = Case([Atom("C14"), Atom("build"), cfg, core_g], call_impl(impl_build, meta["core"], groups, multi, route, meta["groups"]), meta=meta)
     elif op == "generate":
         cores = meta.get("cores", [meta["core"]])
         case = Case([Atom("C14"), Atom("generate"), cfg, [enc_graph(Parser(use_multigraph=multi).parse(c)) for c in cores], meta.get("aam", True)],
-                    call_impl(impl_generate, cores, groups, meta.get("aam", True), multi, meta.get("history", False), meta.get("protocol")), meta=meta)
+                    call_impl(impl_generate, cores, groups, meta.get("aam", True), multi, meta.get("history", False), meta.get("protocol"),
+                              route, meta["groups"]), meta=meta)
     else:
         case = Case([Atom("C14"), Atom("next"), cfg, core_g],
-                    call_impl(impl_next, Parser(use_multigraph=multi).parse(meta["core"]), groups, multi), meta=meta)
+                    call_impl(impl_next, Parser(use_multigraph=multi).parse(meta["core"]), groups, multi, route, meta["groups"]), meta=meta)
     drv = Driver()
     o = Outcome(case, drv.ask(case.line()))
     drv.close()
